@@ -1,4 +1,5 @@
 import logging
+import time
 import j1939
 from .message_id import FrameFormat
 
@@ -305,6 +306,11 @@ class ControllerApplication:
         mid = j1939.MessageId(priority=6, parameter_group_number=pgn.value, source_address=address)
         data = self._name.bytes
         self._ecu.send_message(mid.can_id, True, data)
+        # the bus does not echo our own frames back to us: the other CAs of this ECU have to see the claim as well,
+        # otherwise two CAs of one ECU can end up operational on the same address
+        for ca in list(self._ecu.j1939_dll._cas):
+            if ca is not self:
+                ca._process_addressclaim(mid, data, time.time())
 
     def on_request(self, src_address, dest_address, pgn):
         """Callback for PGN requests
